@@ -35,6 +35,11 @@ func (t *Transaction) GetNewIntents() map[string]*TransactionIntent {
 	return t.newIntents
 }
 
+// GetOldIntent returns the content the given intent had before the transaction. Returns nil if it is not known.
+func (t *Transaction) GetOldIntent(name string) *TransactionIntent {
+	return t.oldIntents[name]
+}
+
 func (t *Transaction) GetOldRunning() *TransactionIntent {
 	return t.oldRunning
 }
